@@ -127,6 +127,14 @@ Definition items (v : val) : list val :=
   | _ => []
   end.
 
+(* all(f(item, t) for item, t in zip(value, args)): stops at the end of the shorter list *)
+Definition zip_all (f : ty -> val -> bool) : list ty -> list val -> bool :=
+  fix go (ts : list ty) (vs : list val) {struct ts} : bool :=
+    match ts, vs with
+    | a :: ts', x :: vs' => f a x && go ts' vs'
+    | _, _ => true
+    end.
+
 (* ---------- admissibility of an annotation term as a Python object the generator can print ---------- *)
 Definition scalar_val (v : val) : bool :=
   match v with XBool _ | XInt _ | XStr _ | XEnum _ _ => true | _ => false end.
